@@ -1,4 +1,5 @@
 mod cell;
+mod chain;
 mod conc;
 mod d9;
 mod ebr;
@@ -120,6 +121,17 @@ fn main() {
             let n: usize = arg(&args, "--chain").and_then(|s| s.parse().ok()).unwrap_or(1000);
             let (adv, bad) = d9::run(n);
             println!("d9: chain={} epochs_advanced_during_first_subtree={} second_child_destructed_under_pinned_snapshot={}", n, adv, bad);
+        }
+        "chain" => {
+            let (lines, props, fails) = chain::run(&out, seed, thorough);
+            println!("chain: lines={} property_checks={} property_failures={}", lines, props, fails);
+        }
+        "stack-probe" => {
+            let n: usize = arg(&args, "--chain").and_then(|s| s.parse().ok()).unwrap_or(100000);
+            let st: usize = arg(&args, "--stack").and_then(|s| s.parse().ok()).unwrap_or(2 << 20);
+            let ok = chain::stack_probe(n, st);
+            println!("stack-probe: chain={} stack={} ok={}", n, st, ok);
+            std::process::exit(if ok { 0 } else { 1 });
         }
         "traits" => {
             let (lines, props, fails) = traits::run(&out, seed, thorough);
